@@ -155,6 +155,10 @@ func runC04(c *explore.Ctx) {
 			}
 		}
 	}
+	if c.Expired() || c.NViolations() > 0 {
+		return
+	}
+	c04FaultLayer(c)
 }
 
 // c04Image runs the level-(n+1) checks from one distinct image of level n.
@@ -371,4 +375,132 @@ func replayChain(rep map[string]interface{}) (string, error) {
 func numFieldF(m map[string]interface{}, k string) float64 {
 	f, _ := m[k].(float64)
 	return f
+}
+
+// ---------------------------------------------------------------------------------------------
+// Fault layer: a session may also end because an operation failed. For every operation of a small
+// menu, after every 0-/1-letter prefix, a transient I/O error is injected at EACH of the operation's
+// mutating file-system calls; the operation then (usually) returns an error. Two continuations:
+// (A) the process dies right there, (B) the process calls Close (which may fail too) and exits. The next
+// process's Open must succeed and show the acknowledged state, optionally with the whole failed
+// operation applied (an error return leaves "applied or not" open, never "half" or "something else").
+
+func c04FaultLayer(c *explore.Ctx) {
+	type bc struct{ b, cfg string }
+	bcs := []bc{{"S2", "ROLL"}, {"S4", "ROLL"}, {"SM", "ROLLM"}, {"T", "BIGC"}}
+	if c.Thorough() {
+		bcs = append(bcs, bc{"CH", "BIGC"}, bc{"S3", "ROLL"}, bc{"S2", "ROLL1"}, bc{"E", "ROLL"})
+	}
+	ops := []explore.Op{{Kind: explore.Put, Key: "a"}, {Kind: explore.Put, Key: "b"}, {Kind: explore.Delete, Key: "a"}, {Kind: explore.Compact}, {Kind: explore.Sync}, {Kind: explore.Close}}
+	prefixes := [][]explore.Op{{}, {{Kind: explore.Put, Key: "a"}}, {{Kind: explore.Delete, Key: "a"}}, {{Kind: explore.Delete, Key: "b"}}}
+	for _, x := range bcs {
+		base, err := explore.GetBase(x.b, cfgByName(x.cfg), 0)
+		if err != nil {
+			c.HarnessError("%v", err)
+		}
+		explore.PinSeed(0)
+		memo := recMemo{}
+		for _, pre := range prefixes {
+			for _, o := range ops {
+				if !c.Mine() {
+					continue
+				}
+				for n := 1; n < 200; n++ {
+					if c.Expired() || c.NViolations() > 0 {
+						return
+					}
+					done, v := c04FaultCase(c, base, x.b, x.cfg, pre, o, n, memo)
+					if v != nil {
+						c.Violation(*v)
+						return
+					}
+					if done {
+						break
+					}
+				}
+			}
+		}
+	}
+}
+
+// c04FaultCase injects the fault at the n-th mutating call of op. done = the operation makes fewer than n such calls.
+func c04FaultCase(c *explore.Ctx, base *explore.Base, bname, cfg string, pre []explore.Op, o explore.Op, n int, memo recMemo) (bool, *explore.Violation) {
+	s := base.NewSess()
+	mk := func(class, msg string) *explore.Violation {
+		w := append(append([]explore.Op(nil), pre...), o)
+		return &explore.Violation{
+			Key:    fmt.Sprintf("fault %s base=%s cfg=%s word=%s fault@%d", class, bname, cfg, explore.WordString(w), n),
+			What:   fmt.Sprintf("base %s/%s, [%s] with a transient I/O error injected at mutating file-system call #%d of %s: %s", bname, cfg, explore.WordString(w), n, o, msg),
+			Size:   len(w)*1000 + n,
+			Replay: map[string]interface{}{"kind": "fault04", "base": bname, "cfg": cfg, "word": opsJSON(w), "fault_at": n, "class": class, "observed": msg},
+		}
+	}
+	if err := s.OpenDB(); err != nil {
+		return true, mk("open", "Open: "+err.Error())
+	}
+	for _, p := range pre {
+		if err := s.Apply(p); err != nil {
+			return true, mk("prefix", fmt.Sprintf("%s: %v", p, err))
+		}
+	}
+	m0 := s.Model.Clone()
+	m1 := s.Model.Clone()
+	switch o.Kind {
+	case explore.Put:
+		m1[string(s.Keys[o.Key])] = fmt.Sprintf("v%03d", (s.NVal+1)%1000)
+	case explore.Delete:
+		delete(m1, string(s.Keys[o.Key]))
+	}
+	before := s.FS.Mutations()
+	s.FS.FailAt = before + n
+	err := s.Apply(o)
+	s.FS.FailAt = 0
+	if s.FS.Mutations() < before+n {
+		// the operation makes fewer than n mutating calls
+		if s.DB != nil && o.Kind != explore.Close {
+			_ = s.DB.Close()
+		}
+		return true, nil
+	}
+	c.Add("executions", 1)
+	c.Add("fault_cases", 1)
+	c.Add("transitions", int64(len(pre)+1))
+	if s.Panicked != "" {
+		return false, mk("panic", s.Panicked)
+	}
+	if err != nil {
+		c.Outcome("faulted_op_result", o.Kind.String()+": error")
+	} else {
+		c.Outcome("faulted_op_result", o.Kind.String()+": nil (fault tolerated)")
+	}
+	judge := func(when string, img *simfs.FS) *explore.Violation {
+		c.Add("images", 1)
+		rec, fresh := memo.get(img, base, explore.RecoverOpts{})
+		if fresh {
+			c.Add("recoveries", 1)
+			c.Distinct("image", explore.Hash64("fault", bname, cfg, img.Hash()))
+		}
+		if msg := explore.Admissible(rec, m0, m1, err == nil, s.KeyName); msg != "" {
+			return mk("after-"+when, fmt.Sprintf("the operation returned %v; %s, the next process's Open: %s", err, when, msg))
+		}
+		return nil
+	}
+	// (A) the process dies right after the failed call returned
+	if o.Kind != explore.Close || err != nil {
+		if v := judge("the process dies", s.FS.Clone()); v != nil {
+			return false, v
+		}
+	}
+	// (B) the process closes the database (Close may fail as well) and exits
+	if o.Kind != explore.Close {
+		cerr := s.ProtectedClose()
+		if s.Panicked != "" {
+			return false, mk("panic", s.Panicked)
+		}
+		_ = cerr
+	}
+	if v := judge("the process calls Close and exits", s.FS.Clone()); v != nil {
+		return false, v
+	}
+	return false, nil
 }
